@@ -14,7 +14,15 @@ set -u
 ID="$1"
 ROOT="$(cd "$(dirname "$0")/.." && pwd)"
 export RLVERIF_ROOT="$ROOT" CARGO_NET_OFFLINE=true
-RUNS="${RLVERIF_FUZZ_RUNS:-60000}"        # per worker
+# executions per worker; fixed work, scaled to the cost of one case of the property so that every
+# stage takes a few minutes on 16 cores (C06 compares calendars date by date over 230 years)
+case "$ID" in
+    C06) DEFAULT_RUNS=2500;;
+    C16) DEFAULT_RUNS=12000;;
+    C09|C10) DEFAULT_RUNS=30000;;
+    *) DEFAULT_RUNS=60000;;
+esac
+RUNS="${RLVERIF_FUZZ_RUNS:-$DEFAULT_RUNS}"        # per worker
 JOBS="${RLVERIF_FUZZ_JOBS:-16}"
 SEED="${VERIF_SEED:-1}"; [ "$SEED" = "0" ] && SEED=1
 WORK="$ROOT/fuzz/corpus-work/$ID"
